@@ -80,20 +80,68 @@ def uniqChain (S : Schema) (lst leaf : Nat) : List Nat :=
 def uniqFind (chain : List Nat) (inst : DNode) : Option DNode :=
   chain.foldl (fun (cur : Option DNode) sid => cur.bind fun n => n.kids.find? (·.sid == sid)) (some inst)
 
-/-- the value the comparison uses: the instance's, else the schema default of the leaf (whatever the ancestors) -/
-def uniqVal (S : Schema) (lst : Nat) (inst : DNode) (leaf : Nat) : Option Bytes :=
+/-! The value of a leaf inside a list entry with RFC 7950 §7.6.1 "default in use": the leaf's instance, else its default if
+every container on the way exists or is a non-presence container and every case on the way is the selected one (or the
+default one when the choice has no data). -/
+
+/-- does the case / choice with data ids `ds` have data among the siblings? -/
+def hasData (sibs : List DNode) (ds : List Nat) : Bool := sibs.any (inSids ds)
+
+/-- schema path (choice and case included) from one of `ks` down to the node `target` -/
+def pathTo : (fuel : Nat) → List STree → Nat → Option (List STree)
+  | 0, _, _ => none
+  | _ + 1, [], _ => none
+  | fuel + 1, k :: ks, target =>
+    if k.sid == target then some [k]
+    else match pathTo fuel k.kids target with
+      | some p => some (k :: p)
+      | none => pathTo fuel ks target
+
+/-- walk the schema path inside the entry; `none` = the leaf has no value there and no default in use -/
+def leafValInUse : List STree → (lvl : List DNode) → Option Bytes
+  | [], _ => none
+  | [leaf], lvl =>
+    match lvl.find? (·.sid == leaf.sid) with
+    | some d => some d.val
+    | none => leaf.info.dflts.head?
+  | k :: rest, lvl =>
+    match k.info.kind with
+    | .container =>
+      match lvl.find? (·.sid == k.sid) with
+      | some c => leafValInUse rest c.kids
+      | none => if k.info.presence then none else leafValInUse rest []
+    | .choice =>
+      match rest with
+      | cs :: rest' =>
+        if hasData lvl k.dataSids then
+          (if hasData lvl cs.dataSids then leafValInUse rest' lvl else none)
+        else if k.info.dfltCase == some cs.info.name then leafValInUse rest' lvl
+        else none
+      | [] => none
+    | _ => none
+
+
+/-- the value the comparison uses: the instance's, else the schema default of the leaf — whatever the ancestors in the
+defective code (F60), only when that default is in use in the repaired one (`lyd_val_uniq_dflt_in_use`) -/
+def uniqVal (X : SchemaX) (lst : Nat) (inst : DNode) (leaf : Nat) : Option Bytes :=
+  let S := X.base
   match uniqFind (uniqChain S lst leaf) inst with
   | some d => some d.val
-  | none => (S.get? leaf).bind (·.dflts.head?)
+  | none =>
+    if X.q.uniqueDefaultAlways then (S.get? leaf).bind (·.dflts.head?)
+    else
+      match X.node? lst with
+      | some lt => (pathTo (S.nodes.length + 1) lt.kids leaf).bind fun p => leafValInUse p inst.kids
+      | none => none
 
 /-- all values of one `unique` statement, `none` when one is missing ("unique set is incomplete") -/
-def uniqTuple (S : Schema) (lst : Nat) (u : List Nat) (inst : DNode) : Option (List Bytes) :=
-  u.mapM (uniqVal S lst inst)
+def uniqTuple (X : SchemaX) (lst : Nat) (u : List Nat) (inst : DNode) : Option (List Bytes) :=
+  u.mapM (uniqVal X lst inst)
 
 /-- `lyd_val_uniq_list_equal` for one unique statement: every leaf set on both sides and equal, at least one leaf -/
-def uniqEqual (S : Schema) (lst : Nat) (u : List Nat) (a b : DNode) : Bool :=
+def uniqEqual (X : SchemaX) (lst : Nat) (u : List Nat) (a b : DNode) : Bool :=
   !u.isEmpty && u.all fun leaf =>
-    match uniqVal S lst a leaf, uniqVal S lst b leaf with
+    match uniqVal X lst a leaf, uniqVal X lst b leaf with
     | some x, some y => x == y
     | _, _ => false
 
@@ -101,12 +149,12 @@ def uniqEqual (S : Schema) (lst : Nat) (u : List Nat) (a b : DNode) : Bool :=
 abbrev UTable := List (Nat × (DNode × Nat))
 
 /-- `lyht_insert` with the `lyd_val_uniq_list_equal` callback: the first record with the same hash that is equal -/
-def utFind (S : Schema) (lst : Nat) (u : List Nat) (tbl : UTable) (h : Nat) (inst : DNode) : Option (DNode × Nat) :=
-  (tbl.find? fun r => r.1 == h && uniqEqual S lst u inst r.2.1).map (·.2)
+def utFind (X : SchemaX) (lst : Nat) (u : List Nat) (tbl : UTable) (h : Nat) (inst : DNode) : Option (DNode × Nat) :=
+  (tbl.find? fun r => r.1 == h && uniqEqual X lst u inst r.2.1).map (·.2)
 
 /-- the hash-table path (more than two instances): instances in order, per instance every unique statement in order;
 result = the instance found equal (the EARLIER one, `second` of the callback) -/
-def uniqueHash (S : Schema) (lst : Nat) (hash : List Bytes → Nat) (uniques : List (List Nat)) :
+def uniqueHash (X : SchemaX) (lst : Nat) (hash : List Bytes → Nat) (uniques : List (List Nat)) :
     List (DNode × Nat) → (tables : List UTable) → Option (DNode × Nat)
   | [], _ => none
   | inst :: rest, tables =>
@@ -115,31 +163,31 @@ def uniqueHash (S : Schema) (lst : Nat) (hash : List Bytes → Nat) (uniques : L
       | [], _, acc => (none, acc.reverse)
       | u :: us, tbls, acc =>
         let tbl := tbls.head?.getD []
-        match uniqTuple S lst u inst.1 with
+        match uniqTuple X lst u inst.1 with
         | none => perU us tbls.tail (tbl :: acc)          -- skip this list instance since its unique set is incomplete
         | some vals =>
           let h := hash vals
-          match utFind S lst u tbl h inst.1 with
+          match utFind X lst u tbl h inst.1 with
           | some hit => (some hit, (tbl :: acc).reverse)
           | none => perU us tbls.tail ((tbl ++ [(h, inst)]) :: acc)
     match perU uniques tables [] with
     | (some hit, _) => some hit
-    | (none, tables') => uniqueHash S lst hash uniques rest tables'
+    | (none, tables') => uniqueHash X lst hash uniques rest tables'
 
 /-- `lyd_validate_unique`: nothing for fewer than two instances, the direct comparison for exactly two (reported on the
 second), the hash tables otherwise (reported on the earlier instance) -/
-def uniqueCheck (S : Schema) (lst : Nat) (hash : List Bytes → Nat) (uniques : List (List Nat)) (insts : List (DNode × Nat)) :
+def uniqueCheck (X : SchemaX) (lst : Nat) (hash : List Bytes → Nat) (uniques : List (List Nat)) (insts : List (DNode × Nat)) :
     Option (DNode × Nat) :=
   match insts with
-  | [a, b] => if uniques.any (fun u => uniqEqual S lst u a.1 b.1) then some b else none
-  | _ :: _ :: _ :: _ => uniqueHash S lst hash uniques insts (uniques.map fun _ => [])
+  | [a, b] => if uniques.any (fun u => uniqEqual X lst u a.1 b.1) then some b else none
+  | _ :: _ :: _ :: _ => uniqueHash X lst hash uniques insts (uniques.map fun _ => [])
   | _ => none
 
 def uniqueOut (X : SchemaX) (o : VOpts) (cx : Cx) (sibs : List DNode) (k : STree) : Out :=
   let us := X.uniquesOf k.sid
   if us.isEmpty || o.operational then {}
   else
-    match uniqueCheck X.base k.sid (fun _ => 0) us (instsIdx sibs k.sid) with
+    match uniqueCheck X k.sid (fun _ => 0) us (instsIdx sibs k.sid) with
     | some (n, idx) => Out.err .noUniq (cx.pathOf X.base (sibs.take idx) n)
     | none => {}
 
@@ -167,27 +215,33 @@ def schemaNodes (X : SchemaX) (o : VOpts) (cx : Cx) (sibs : List DNode) : List S
     o1 ++ schemaNodes X o cx sibs ks
 
 mutual
-/-- one level: the choices first, then the other nodes -/
-def schemaRL (X : SchemaX) (o : VOpts) (cx : Cx) (sibs : List DNode) : List STree → Out
-  | ks => schemaChoices X o cx sibs ks ++ schemaNodes X o cx sibs ks
+/-- the choices of a level -/
 def schemaChoices (X : SchemaX) (o : VOpts) (cx : Cx) (sibs : List DNode) : List STree → Out
   | [] => {}
-  | .mk s i cases :: rest =>
-    let o1 : Out :=
-      if i.kind != .choice || (o.noState && !i.config) then {}
-      else
-        let om : Out :=
-          if i.mandatory && !(sibs.any (inSids (dataSidsL cases))) && !o.operational then
-            Out.err .noMandChoice (mandLoc X.base cx s)
-          else {}
-        om ++ schemaCases X o cx sibs cases
-    o1 ++ schemaChoices X o cx sibs rest
+  | k :: rest => schemaChoice X o cx sibs k ++ schemaChoices X o cx sibs rest
+/-- a mandatory choice has data; the case that has data is validated -/
+def schemaChoice (X : SchemaX) (o : VOpts) (cx : Cx) (sibs : List DNode) : STree → Out
+  | .mk s i cases =>
+    if i.kind != .choice || (o.noState && !i.config) then {}
+    else
+      let om : Out :=
+        if i.mandatory && !(sibs.any (inSids (dataSidsL cases))) && !o.operational then
+          Out.err .noMandChoice (mandLoc X.base cx s)
+        else {}
+      om ++ schemaCases X o cx sibs cases
 /-- find the existing case, if any: validate only this case -/
 def schemaCases (X : SchemaX) (o : VOpts) (cx : Cx) (sibs : List DNode) : List STree → Out
   | [] => {}
-  | .mk _ _ ks :: rest =>
-    if sibs.any (inSids (dataSidsL ks)) then schemaRL X o cx sibs ks else schemaCases X o cx sibs rest
+  | c :: rest =>
+    if sibs.any (inSids c.dataSids) then schemaCase X o cx sibs c else schemaCases X o cx sibs rest
+/-- the restrictions of a case: its own choices first, then its other nodes -/
+def schemaCase (X : SchemaX) (o : VOpts) (cx : Cx) (sibs : List DNode) : STree → Out
+  | .mk _ _ ks => schemaChoices X o cx sibs ks ++ schemaNodes X o cx sibs ks
 end
+
+/-- `lyd_validate_siblings_schema_r` for the schema children `ks`: the choices first, then the other nodes -/
+def schemaRL (X : SchemaX) (o : VOpts) (cx : Cx) (sibs : List DNode) (ks : List STree) : Out :=
+  schemaChoices X o cx sibs ks ++ schemaNodes X o cx sibs ks
 
 /-! ## `lyd_validate_final_r` -/
 
